@@ -40,10 +40,12 @@ DecimalRuleSets ==
      {<<R("type", IdV("decimal")), R("precision", NV(p))>> \o x \o n : p \in {N1, N2, N3},
          x \in Opt({R("min", NV(N0)), R("max", NV(N1_5))}), n \in Opt({R("nullable", BV(TRUE))})}
 NumExamples == {Nm1, N0, N0_5, N1, N1_5, N10, N1_0, N0_1, N100, N1_25, N2, N5}
+NBig == <<49, 56, 52, 52, 54, 55, 52, 52, 48, 55, 51, 55, 48, 57, 53, 53, 49, 54, 49, 55>>      \* 18446744073709551617 = 2^64 + 1
 StrLenRuleSets ==
      {<<R("minLength", NV(a))>> \o n : a \in {N0, N1, N2, N3}, n \in NullableOpts}
 \cup {<<R("maxLength", NV(a))>> \o n : a \in {N0, N1, N2, N3}, n \in NullableOpts}
 \cup {<<R("minLength", NV(p[1])), R("maxLength", NV(p[2]))>> : p \in {q \in {N0, N1, N2, N3} \X {N0, N1, N2, N3} : LessEq(q[1], q[2])}}
+\cup {<<R("maxLength", NV(NBig))>>, <<R("minLength", NV(N1)), R("maxLength", NV(NBig))>>}     \* a bound beyond 64 bits bounds nothing
 StrExamples == {Sempty, Sa, Sab, Sabc, Sabcd, Sb, Sac, Sxaby}
 Chr(c) == [t |-> "chr", c |-> c]
 Cat(a, b) == [t |-> "cat", a |-> a, b |-> b]
